@@ -183,6 +183,37 @@ def check_accessors(ck, f, unit, label):
     return n
 
 
+def check_forward_impls(ck, f, unit, label):
+    """R5: `impl Trait for Fwd<T>` (from #[cglue_forward]) calls the method of the same name on `self.0`, once, arguments in order."""
+    n = 0
+    for fn in f.fns(unit):
+        if not (fn.get("impl_self") or "").startswith("cglue::forward::Fwd<") or not fn.get("impl_trait") or not fn["exp"]:
+            continue
+        if 'cglue_forward' not in fn["macro"] and "cglue_builtin_ext_forward" not in fn["macro"]:
+            continue
+        n += 1
+        body = mir.Body(fn)
+        key = "%s/%s" % (label, fn["path"])
+        calls = [(i, t) for i, t in body.calls() if (t.get("callee") or {}).get("trait") == fn["impl_trait"]]
+        ok = len(calls) == 1 and calls[0][1]["callee"]["name"] == fn["name"] and body.on_all_paths_to_return(calls[0][0]) and not body.in_cycle(calls[0][0])
+        ck.ob("R5-forward-calls-same-name-once", key, ok, "%s calls %s of %s (expected exactly one call of `%s`)" % (fn["path"], [t["callee"]["name"] for _, t in calls], fn["impl_trait"], fn["name"]),
+              sample={"fn": fn["path"]})
+        if not ok:
+            continue
+        t = calls[0][1]
+        recv = mir.deepstrip(body.origin_operand(t["args"][0]))
+        while recv[0] == "call" and recv[1] in ("std::ops::Deref::deref", "std::ops::DerefMut::deref_mut"):
+            recv = mir.deepstrip(recv[2][0])
+        ck.ob("R5-forward-receiver-is-inner", key, recv == ("field", ("arg", 1), "0"), "%s forwards to %s instead of the handle it wraps (`self.0`)" % (fn["path"], mir.fmt(recv)[:120]))
+        params = []
+        for a in t["args"][1:]:
+            o = mir.deepstrip(body.origin_operand(a))
+            params.append(o[1] if o[0] == "arg" else None)
+        ck.ob("R5-forward-args-in-order", key, params == list(range(2, 2 + len(params))) and len(params) == body.argc - 1,
+              "%s passes parameters %s (expected each of its %d parameters once, in order)" % (fn["path"], params, body.argc - 1))
+    return n
+
+
 def custom_table_for(label):
     return CUSTOM_TABLES.get(label, {})
 
@@ -198,6 +229,8 @@ def run(tier):
     m = model.Model(cf)
     check_model(ck, m, "corpus", {}, stats)
     na = check_accessors(ck, cf, None, "corpus")
+    nf = check_forward_impls(ck, cf, None, "corpus")
+    ck.floor("forward impls in corpus", nf, 3)
     n_corpus = stats["methods"]
     ck.floor("generated methods in corpus", n_corpus, 240 if tier == "quick" else 1380)
     ck.floor("accessor implementations in corpus", na, 100)
@@ -207,9 +240,11 @@ def run(tier):
     from rules.c01_tables import CUSTOM_IMPL
     check_model(ck, m2, "cglue-tests", CUSTOM_IMPL, stats)
     check_accessors(ck, ct, "cglue-test", "cglue-tests")
+    check_forward_impls(ck, ct, "cglue-test", "cglue-tests")
     cl = facts.cfg_cglue(features="task,futures")
     ck.unit("cglue lib (task,futures): cglue::ext incl. Future/Stream/Sink")
     check_model(ck, model.Model(cl, "cglue-lib"), "cglue-ext", CUSTOM_IMPL, stats)
+    check_forward_impls(ck, cl, "cglue-lib", "cglue-ext")
     ex = facts.cfg_examples()
     ck.unit("examples")
     m3 = model.Model(ex)
